@@ -1,0 +1,35 @@
+//go:build verif
+
+// Contracts for the deductive verifier in /verif (govc). This file contains
+// comments only and is compiled only under the "verif" build tag.
+
+package slices
+
+/*@
+// ---------------------------------------------------------------- C13
+
+func Chunk
+  property C13
+  requires size >= 1
+  ensures[count]  len(result) == cdiv(len(slice), size)
+  ensures[pieces] forall k :: 0 <= k && k < len(result) ==> window(result[k], slice, k*size, min((k+1)*size, len(slice)))
+  ensures[fresh]  len(slice) > 0 ==> fresh(result)
+  loop 0 invariant 0 <= i && j == i*size && j <= rounded && rounded == div*size && div == len(slice)/size
+  loop 0 invariant i <= div
+  loop 0 invariant forall k :: 0 <= k && k < i ==> window(chunks[k], slice, k*size, (k+1)*size)
+
+func Windowed
+  property C13
+  requires size >= 1
+  ensures[count]  len(result) == ite(len(slice) < size, 0, len(slice) - size + 1)
+  ensures[pieces] forall k :: 0 <= k && k < len(result) ==> window(result[k], slice, k, k+size)
+  loop 0 invariant 0 <= i && i <= lim && len(windows) == lim && lim == len(slice) - size + 1
+  loop 0 invariant forall k :: 0 <= k && k < i ==> window(windows[k], slice, k, k+size)
+
+func Pairs
+  property C13
+  ensures[count] len(result) == ite(len(slice) < 2, 0, len(slice) - 1)
+  ensures[pairs] forall k :: 0 <= k && k < len(result) ==> result[k][0] == slice[k] && result[k][1] == slice[k+1]
+  loop 0 invariant 0 <= i && i <= lim && len(pairs) == lim && lim == len(slice) - 1 && fresh(pairs)
+  loop 0 invariant forall k :: 0 <= k && k < i ==> pairs[k][0] == slice[k] && pairs[k][1] == slice[k+1]
+@*/
